@@ -121,7 +121,7 @@ Print Assumptions C19_pipeline_paths.
    only removes entries (so path_inv is kept: C19_reader_inv holds for the repaired reader, whatever is pending). *)
 Theorem C19_moveout_forgotten : forall C r k e c p r' k',
   c_fix_moveout C = true -> pend r = Some (c, p) ->
-  is_moved_to (k_mask e) && N.eqb (k_cookie e) c = false ->
+  is_moved_to (k_mask e) && N.eqb (k_cookie e) c && amem N.eqb (k_wd e) (pfw r) = false ->
   settle_pending C r k e = (r', k') ->
   pend r' = None /\
   (forall x, In x (wfp r') -> In x (wfp r)) /\
